@@ -267,6 +267,8 @@ Proof.
       rewrite (ext_st _ _ i (ext_set_silent e1 i true)). apply legal_fresh; auto.
     + apply J_set_state; [eapply J_xext; [apply xext_set_silent | exact J1]|].
       rewrite (ext_st _ _ i (ext_set_silent e1 i true)). apply legal_fresh; auto.
+    + apply J_set_state; [eapply J_xext; [apply xext_set_silent | exact J1]|].
+      rewrite (ext_st _ _ i (ext_set_silent e1 i true)). apply legal_fresh; auto.
 Qed.
 
 (* ---------------------------------------------------------------------------------------------
@@ -684,7 +686,7 @@ Qed.
 (* exec, entered from the scheduler on a task that is not completed: it keeps J, or the
    initialisation failed and the task is still ready *)
 Definition failed (e e' : eng) (i : nat) : Prop :=
-  exn e' = true /\ Inv e' /\ QR e' /\ fresh_state (st e' i) /\ ntasks e <= ntasks e'.
+  exn e' = true /\ Inv e' /\ QR e' /\ is_completed (st e' i) = false /\ ntasks e <= ntasks e'.
 Lemma exec_spec f cv e i : J e -> i < ntasks e -> is_completed (st e i) = false ->
   G e (exec f cv e i) \/ failed e (exec f cv e i) i.
 Proof.
@@ -705,14 +707,15 @@ Proof.
     assert (Lk : ntasks e <= ntasks (kind_init (set_state 1 (set_data e i (inputs e i)) i SReady) i)).
     { rewrite ntasks_kind_init. apply Gs. }
     destruct (kind_init_spec _ i (proj1 Gs) Fs) as [(Hx & HIx & HQx & Hfx) | HJk].
-    - right. cbv zeta. rewrite Hx. unfold failed. auto.
+    - right. cbv zeta. rewrite Hx. unfold failed. split; [exact Hx | split; [exact HIx | split; [exact HQx | split; [|exact Lk]]]].
+      destruct Hfx as [E | E]; rewrite E; reflexivity.
     - left. cbv zeta. pose proof HJk as (HIk & HXk & HQk). rewrite HXk.
       set (ea := kind_init (set_state 1 (set_data e i (inputs e i)) i SReady) i) in *.
       assert (Ga : G e ea) by (split; [exact HJk | exact Lk]).
       destruct (negb (is_completed (st ea i))); [|exact Ga].
       eapply G_trans; [exact Ga|]. apply mainE; [apply Ga | lia]. }
   destruct H1 as [G1 | (Hx & HI1 & HQ1 & Hf1 & HL1)]; [|right; rewrite Hx; unfold failed; auto].
-  left. pose proof G1 as ((_ & HX1 & _) & _). rewrite HX1.
+  pose proof G1 as ((_ & HX1 & _) & _). rewrite HX1.
   assert (R1 : i < ntasks e1) by (destruct G1; lia).
   (* wake-up *)
   set (e1' := if is (st e1 i) SPending then let '(rdy, ea) := is_ready e1 i in if rdy then emit f (set_state 6 ea i SRunning) i else ea else e1).
@@ -725,7 +728,15 @@ Proof.
     - eapply G_trans; [exact G1|]. change ea with (snd (false, ea)); rewrite <- ER.
       split; [apply J_is_ready; auto; apply G1 | rewrite ntasks_is_ready; lia]. }
   assert (R1' : i < ntasks e1') by (destruct G1'; lia).
-  (* run *)
+  (* run: a failing package *)
+  destruct (nkind_beq (kind e1' i) KAct && is (st e1' i) SReady && is_fail (sp_u (n_spec (tnode e1' i)))) eqn:Efail.
+  { right. apply andb_true_iff in Efail as [Ef _]. apply andb_true_iff in Ef as [_ ER]. apply is_eq in ER.
+    assert (Gr : G e1' (set_state 7 e1' i SRunning)) by (apply G_set_state; [apply G1' | rewrite ER; reflexivity]).
+    destruct Gr as [(HIr & HXr & HQr) Lr]. unfold failed. split; [reflexivity|]. split; [exact HIr|]. split; [exact HQr|]. split.
+    - cbn [with_exn]. change (is_completed (st (set_state 7 e1' i SRunning) i) = false).
+      destruct (st_set_state_same 7 e1' i SRunning) as [-> | [Ho _]]; [reflexivity | unfold ntasks in R1'; lia].
+    - change (ntasks e <= ntasks (set_state 7 e1' i SRunning)). destruct G1'; lia. }
+  left. clear Efail.
   match goal with |- G e (next f cv ?e2 i) => set (e2v := e2) end.
   assert (G2 : G e e2v).
   { unfold e2v. destruct (is (st e1' i) SReady) eqn:ER; [|exact G1']. apply is_eq in ER.
@@ -782,7 +793,7 @@ Proof.
     assert (Gs : G (with_exn e1 false) (set_err 21 (with_exn e1 false) i 0)).
     { apply G_set_err; auto.
       assert (Hs : st (with_exn e1 false) i = st e1 i) by reflexivity. rewrite Hs.
-      destruct Hf1 as [-> | ->]; reflexivity. }
+      now apply legal_to_terminal. }
     eapply G_trans; [exact G0|]. eapply G_trans; [split; [exact J2 | unfold ntasks in *; simpl; exact HL1]|].
     eapply G_trans; [exact Gs|]. apply mainEE; [apply Gs|]. destruct Gs as [_ L]. unfold set_err in *. rewrite ntasks_set_state, ntasks_tmod in *. unfold ntasks in *. cbn [with_exn tasks] in *. lia.
 Qed.
